@@ -218,6 +218,25 @@ def evaluate(case):
     counters = {}
     if r1[0] == "exc":
         counters["both_raised:" + r1[1].split(":")[0]] = 1
+    # the container is storage too: the same coefficients held in ONE numpy array per multivector (float64 / int64), with the
+    # variant key order, must give the same element as the list-backed base
+    if r1[0] == "ok" and (op in EXACT_BIN or op in EXACT_UN) and not floaty:
+        import numpy as np
+        allint = all(v.denominator == 1 for v in list(va) + (list(vb) if kb is not None else []))
+        def nd(keys, vals, dtype):
+            return kd.mk_raw(alg, keys, np.array([dtype(v) for v in vals], dtype=dtype))
+        for dt_a, dt_b in ((float, float), (int, float)) if allint else ((float, float),):
+            xa = nd(ka2, va2, dt_a)
+            ya = nd(kb2, vb2, dt_b) if kb is not None else None
+            r4 = _observe(op, xa, ya, n)
+            if r4[0] != "ok":
+                raise Violation("same-element", op, f"ndarray-backed operands ({dt_a.__name__}/{dt_b.__name__}) raised {r4[1]} where list-backed ones return ({desc})",
+                                exc="raise-mismatch")
+            ok, why = kd.elem_equal({k: (float(v) if np.ndim(v) == 0 else v) for k, v in r4[1].items()}, r1[1], 1e-9)
+            if not ok:
+                raise Violation("same-element", op, f"ndarray-backed operands ({dt_a.__name__}64/{dt_b.__name__}64, keys {ka2}" + (f" x {kb2}" if kb is not None else "")
+                                + f") vs list-backed base ({desc}): {why}", base=kd.show(r1[1]), other=kd.show(r4[1]))
+        counters["checked:ndarray-backed"] = 1
     # anchor exact operators to the reference as well (excludes a common-mode error of all three calls)
     if r1[0] == "ok" and (op in EXACT_BIN or op in EXACT_UN):
         Rr = R(d, ref.T)
